@@ -64,6 +64,7 @@ fn main() {
         "C16" => gridmc::segfiles::run(&ctx),
         "C17" => gridmc::abi::run(&ctx),
         "C15" => threadmc::run(&ctx),
+        "C01" => histmc::world::run(&ctx),
         "C08" | "C09" | "C10" | "C12" | "C13" => histmc::props::run(&ctx),
         "C02" | "C03" | "C04" | "C11" | "C18" => seqmc::props::run(&ctx),
         _ => machinery_failure(&format!("no engine for property {prop}")),
